@@ -371,6 +371,10 @@ def main():
     os.makedirs(WORK, exist_ok=True)
     os.makedirs(os.path.join(ROOT, "evidence"), exist_ok=True)
     os.makedirs(os.path.join(ROOT, "replays"), exist_ok=True)
+    # a replay file left by an earlier run of this check does not describe this run
+    for fn in os.listdir(os.path.join(ROOT, "replays")):
+        if fn.startswith(f"{prop}_{tier}_") and not args.replay:
+            os.remove(os.path.join(ROOT, "replays", fn))
     log = []
     violations = []      # dicts: kind, detail, case...
     unchecked = []       # theorems / streams that no longer check
